@@ -662,6 +662,43 @@ impl<S: TexlangState> VM<S> {
     }
 }
 
+/// Verification hook (read-only): sizes of the VM's internal stacks.
+#[cfg(feature = "verif")]
+#[derive(Debug, Clone, PartialEq, Eq)]
+pub struct VerifSnapshot {
+    pub commands_groups: usize,
+    pub active_char_groups: usize,
+    pub save_stack_len: usize,
+    pub save_stack_entries: Vec<usize>,
+    pub font_stack_len: usize,
+    pub exec_stack_len: usize,
+    pub num_sources: usize,
+    pub shutdown_pending: bool,
+}
+
+#[cfg(feature = "verif")]
+impl<S> VM<S> {
+    /// Verification hook (read-only): sizes of the VM's internal stacks.
+    pub fn verif_snapshot(&self) -> VerifSnapshot {
+        let (commands_groups, active_char_groups) = self.commands_map.verif_group_depths();
+        VerifSnapshot {
+            commands_groups,
+            active_char_groups,
+            save_stack_len: self.internal.save_stack.len(),
+            save_stack_entries: self
+                .internal
+                .save_stack
+                .iter()
+                .map(variable::SaveStackElement::verif_len)
+                .collect(),
+            font_stack_len: self.internal.fonts_save_stack.len(),
+            exec_stack_len: self.internal.execution_stack.len(),
+            num_sources: self.internal.sources.len(),
+            shutdown_pending: !matches!(self.internal.shutdown_status, ShutdownStatus::None),
+        }
+    }
+}
+
 /// Parts of the VM that are private.
 // We have serde(bound="") because otherwise serde tries to put a `Default` bound on S.
 #[cfg_attr(
